@@ -5,6 +5,7 @@
 #include <sys/time.h>
 #include <time.h>
 
+#include <ctype.h>
 #include <errno.h>
 #include <execinfo.h>
 #include <malloc.h>
@@ -388,9 +389,11 @@ const FsNode* fs_resolve(const std::string& path, int* err) {
 
 ClockState clk;
 PrivState priv;
+CtypeState ctypes;
 void env_reset() {
   clk.active = false; clk.now = 1790000000; clk.skew = 0; clk.reads = 0;
   priv.active = false; priv.secure = false; priv.reads = 0;
+  ctypes.mode = 0; ctypes.calls = 0;
   env.active = false;
   env.vars.clear();
   env.reads.clear();
@@ -522,6 +525,27 @@ time_t time(time_t* out) noexcept {
   if (out) *out = v;
   return v;
 }
+
+// <cctype> under a "foreign" locale.
+#define SIM_CTYPE(fn, extra)                                                                          \
+  int __real_##fn(int c);                                                                             \
+  int __wrap_##fn(int c) {                                                                            \
+    if (sim::ctypes.mode == 0 || !sim::in_task()) return __real_##fn(c);                              \
+    sim::ctypes.calls++;                                                                              \
+    const int u = c & 0xff;                                                                           \
+    (void)u;                                                                                          \
+    return extra;                                                                                     \
+  }
+SIM_CTYPE(isalpha, (__real_isalpha(c) || (c >= 0xc0 && c <= 0xff && c != 0xd7 && c != 0xf7) || c == 0xaa || c == 0xb5 || c == 0xba))
+SIM_CTYPE(isalnum, (__real_isalnum(c) || (c >= 0xc0 && c <= 0xff && c != 0xd7 && c != 0xf7) || c == 0xb2 || c == 0xb3 || c == 0xb9))
+SIM_CTYPE(isdigit, (__real_isdigit(c) || c == 0xb2 || c == 0xb3 || c == 0xb9))
+SIM_CTYPE(isspace, (__real_isspace(c) || c == 0xa0 || c == 0x85))
+SIM_CTYPE(isupper, (__real_isupper(c) || (c >= 0xc0 && c <= 0xde && c != 0xd7)))
+SIM_CTYPE(islower, (__real_islower(c) || (c >= 0xdf && c <= 0xff && c != 0xf7)))
+SIM_CTYPE(ispunct, (__real_ispunct(c) && c != '<' ? 1 : (c == 0xd7 || c == 0xf7)))
+SIM_CTYPE(tolower, (c == 'I' ? 0xfd : (c >= 0xc0 && c <= 0xde && c != 0xd7 ? c + 0x20 : __real_tolower(c))))
+SIM_CTYPE(toupper, (c == 'i' ? 0xdd : (c >= 0xe0 && c <= 0xfe && c != 0xf7 ? c - 0x20 : __real_toupper(c))))
+#undef SIM_CTYPE
 
 // Credentials.
 unsigned long __real_getauxval(unsigned long type);
